@@ -88,7 +88,8 @@ def _materialise(tree):
 
 def _canon_path(p, top, sbx):
     if p == top or p.startswith(top + "/"):
-        return sbx + p[len(top):]
+        # (the sandbox's own path may occur again further down when a request spelled it out)
+        return sbx + p[len(top):].replace(top, sbx)
     return p
 
 
@@ -248,10 +249,11 @@ def run_request(case):
     top = _materialise(case["tree"])
     sbx = P.sbx_token(len(top))
     tftp = case["proto"] == "tftp"
-    obs = {"sbx": sbx, "main": _drive(case, tftp, case["req"], case.get("method", "GET"), top, sbx)}
+    req = case["req"].replace("@TOP", top)      # requests that spell out the sandbox's own absolute path
+    obs = {"sbx": sbx, "main": _drive(case, tftp, req, case.get("method", "GET"), top, sbx)}
     if tftp and obs["main"].get("ctor") == "ok":
         # HTTP twin for the parity clause: same configuration, the name with a leading slash
-        obs["twin"] = _drive(case, False, P.slashed(case["req"]), "GET", top, sbx)
+        obs["twin"] = _drive(case, False, P.slashed(req), "GET", top, sbx)
     return obs
 
 
